@@ -40,7 +40,7 @@ import (
 	"strings"
 )
 
-const version = "hazards-v9"
+const version = "hazards-v10"
 
 var scopeDirs = []string{"app", "x", "adapter", "syscontracts", "types", "ibc"}
 
@@ -309,7 +309,8 @@ func q(s string) string {
 		}
 	}
 	b.WriteByte('"')
-	return b.String()
+	// keep comment delimiters out of string literals (only the identity of the text matters; hashes are taken before)
+	return strings.ReplaceAll(strings.ReplaceAll(b.String(), "(*", "( *"), "*)", "* )")
 }
 
 func modulePath(gomod []byte) string {
@@ -395,9 +396,11 @@ func recvName(fd *ast.FuncDecl) string {
 	if fd.Recv == nil || len(fd.Recv.List) == 0 {
 		return fd.Name.Name
 	}
+	// "T.m" for a value receiver, "*T.m" for a pointer receiver (no parentheses: "(*" would open a comment for
+	// tools that strip Coq comments without lexing strings)
 	var b bytes.Buffer
 	printer.Fprint(&b, token.NewFileSet(), fd.Recv.List[0].Type)
-	return "(" + b.String() + ")." + fd.Name.Name
+	return b.String() + "." + fd.Name.Name
 }
 
 func (w *walker) walkFile(f *ast.File) {
